@@ -26,7 +26,7 @@ RULE = ("interpolation: label vectors over {0,1,2,3} (isolated, clusters of adja
 ASSUMPTIONS = ["a bad channel's admissible neighbours = non-bad channels whose distance-decay weight exp(-(d/20um)^1.3) is >= 0.005 (d <= 72.1 um)",
                "detection is judged on generated backgrounds only; the feature margins measured on the run are written to the evidence",
                "mode over batches is asserted only without ties (7/3 splits)"]
-REQUIRED = {"interp_cases": 40, "nonfinite_bad_rows": 20, "bad_rows_checked": 100, "untouched_rows_checked": 40, "detection_cases": 20, "file_mode_cases": 2, "spied_batches": 20, "plurality_channels": 1, "file_mode_cbin": 1, "file_mode_np1_own_maxint": 1}
+REQUIRED = {"interp_cases": 40, "nonfinite_bad_rows": 20, "bad_rows_checked": 100, "untouched_rows_checked": 40, "detection_cases": 20, "file_mode_cases": 2, "spied_batches": 20, "plurality_channels": 1, "file_mode_cbin": 1, "file_mode_np1_own_maxint": 1, "file_mode_short_recordings": 1}
 CASE_TIMEOUT = 200.0
 KINDS = ["3B2", "NP2.1", "NP2.4", "NPultra"]
 
@@ -260,6 +260,11 @@ def run_case(case):
         ns = int(3.6 * fs)
         d = scratch()
         ci = case["seed"] % 1000                                            # ordinal of the file-mode case within the run
+        short = ci % 3 == 2
+        if short:
+            # a recording shorter than n_batches x batch_duration (a test run, an excerpt): the evenly spaced batches overlap, there are still
+            # n_batches of them, and stationary faults are found as in any other file (round 19)
+            ns = int(float(rng.uniform(1.0, 1.7)) * fs)
         fkind = ["NP2.1", "3B2", "NP2.4", "3B2"][ci % 4]                  # every generation (its own volts-per-bit path) ...
         fnsync = [0, 1, 1, 0][ci % 4]                                       # ... and recordings saved without the sync channel
         fgains = None
@@ -283,11 +288,16 @@ def run_case(case):
         kind_often, kind_seldom = str(rng.choice(["dead", "noisy"])), str(rng.choice(["dead", "noisy"]))
         in7 = set(rng.choice(nb, 7, replace=False).tolist())
         in3 = set(rng.choice(nb, 3, replace=False).tolist())
+        if short:
+            in7, in3 = set(range(nb)), set()
+            res.count("file_mode_short_recordings")
         # a channel whose state changes over the file between three values: its most frequent label is a plurality, not a majority
         mixed = int(rng.integers(38, 52))
         plur, other = ("dead", "noisy") if rng.random() < 0.5 else ("noisy", "dead")
         perm = rng.permutation(nb).tolist()
         mixed_state = {bb: ([plur] * 4 + [other] * 3 + ["clean"] * 3)[j] for j, bb in enumerate(perm)}
+        if short:
+            mixed_state = {bb: "clean" for bb in perm}
         # gaps between batches hold plain background
         pos = 0
         seg_bounds = []
